@@ -345,6 +345,82 @@ def reply_sweep(ctx, model, nvec, profile, stats):
                                 ctx.violation("correspondence:C06.reply", case, found_input=False)
 
 
+def traffic_sweep(ctx, model, nvec, profile, stats):
+    """request that registers a callback; then traffic that is NOT its reply -- a server ping (type get) carrying the
+    very id of the pending request, a get/set iq with that id, a reply for another id, a message -- then the reply:
+    still exactly one entity of the documented class (theorem C06_reply_once_after_traffic)"""
+    K = kinds()
+    from yowsup.structs import ProtocolTreeNode as N
+
+    def traffic(kind, rid_, r):
+        if kind == "ping-same-id":
+            return [N("iq", {"id": rid_, "type": "get", "from": K.SRV, "xmlns": "urn:xmpp:ping"},
+                      [N("ping")] if r.random() < .5 else None)]
+        if kind == "set-same-id":
+            return [N("iq", {"id": rid_, "type": "set", "from": K.SRV, "xmlns": r.choice(["w:x", "encrypt", "w:p"])})]
+        if kind == "reply-other-id":
+            return [N("iq", {"id": rid_ + "9", "type": r.choice(["result", "error"]), "from": K.SRV})]
+        if kind == "ping-twice":
+            return [N("iq", {"id": rid_, "type": "get", "from": K.SRV, "xmlns": "urn:xmpp:ping"}) for _ in (0, 1)]
+        raise ValueError(kind)
+
+    for rq in K.REQS:
+        if len(ctx.violations) >= 8:
+            break
+        for ax in (0, 1):
+            for flags in (FLAGSETS[0], FLAGSETS[-1]):
+                fl = dict(zip(R.FLAGS, flags))
+                sup = rq["module"] is None or fl[rq["module"]]
+                if not sup:
+                    continue
+                for tk in ("ping-same-id", "set-same-id", "reply-other-id", "ping-twice"):
+                    for rtype in ("result", "error"):
+                        for _ in range(nvec):
+                            seed = ctx.rng.getrandbits(48)
+                            r = random.Random(seed)
+                            entity, mkreply = rq["gen"](r)
+                            rig = R.Rig(flags, ax, profile)
+                            ser = R.canon(entity.toProtocolTreeNode())
+                            ups, outs, bottom, exc = rig.send(entity)
+                            mids = traffic(tk, entity.getId(), r)
+                            mobs = [rig.recv(m) for m in mids]
+                            reply = mkreply(entity.getId()) if rtype == "result" else K._err(entity.getId(), K.SRV)
+                            rups, rdowns, rexc = rig.recv(reply)
+                            stats["evaluations"] += 1
+                            stats["reply_cases"] += 1
+                            stats["traffic_cases"] = stats.get("traffic_cases", 0) + 1
+                            exp_cls = rq[rtype]
+                            got = [type(u).__name__ for u in rups]
+                            case = {"request": rq["name"], "reply_type": rtype, "flags": fl, "axolotl": ax,
+                                    "gen_seed": seed, "traffic": tk, "request_stanza": R.show(ser),
+                                    "between": [R.show(m) for m in mids], "reply": R.show(reply), "observed_up": got,
+                                    "expected_up": [exp_cls] if exp_cls else [],
+                                    "theorem": "C06_reply_once_after_traffic"}
+                            if rexc is not None or exc is not None or any(o[2] is not None for o in mobs):
+                                case["exception"] = repr(rexc or exc or [o[2] for o in mobs])
+                                ctx.violation("oracle:no-error", case)
+                            if rtype == "result" or exp_cls is not None:
+                                if got != ([exp_cls] if exp_cls else []):
+                                    ctx.violation("oracle:reply_once", case)
+                            if rdowns:
+                                case["observed_down"] = [R.show(x) for x in rdowns]
+                                ctx.violation("oracle:reply_once", case)
+                            if model is not None:
+                                ops = [[1, R.entity_features(entity)]] + [[0, R.node_features(m)] for m in mids] + \
+                                      [[0, R.node_features(reply)]]
+                                res = model.call("run_trace", model_arg(flags, ax, ops))
+                                ok = not isinstance(res, tuple)
+                                if ok:
+                                    obs = [R.norm_actions(R.abstract_obs(ups, outs, exc, ser))] + \
+                                          [R.norm_actions(R.abstract_obs(*o)) for o in mobs] + \
+                                          [R.norm_actions(R.abstract_obs(rups, rdowns, rexc))]
+                                    ok = len(res) == len(obs) and all(norm_model(m)[0] == o for m, o in zip(res, obs))
+                                if not ok:
+                                    stats["mismatches"] += 1
+                                    case["model"] = jsonable(res)
+                                    ctx.violation("correspondence:C06.reply-after-traffic", case, found_input=False)
+
+
 def retry_sweep(ctx, model, nvec, profile, stats):
     """receipts for a message the send layer still holds (state set up through the layer's own enqueueSent)"""
     K = kinds()
